@@ -185,14 +185,16 @@ Proof. intros (_ & _ & l & -> & _) St. now rewrite stored_app, St. Qed.
 
 Lemma same_key_entry_of bd d bytes : same_key bd d (entry_of d bytes) = true.
 Proof.
-  unfold same_key, entry_of. simpl. rewrite !str_eqb_refl, Z.eqb_refl. simpl. now rewrite orb_true_r.
+  unfold same_key, entry_of. simpl. rewrite str_eqb_refl. destruct bd; simpl; auto.
+  - now rewrite str_eqb_refl, Z.eqb_refl.
+  - apply Bool.eqb_reflx.
 Qed.
 
 Lemma do_exists_spec tc fa s d s' r :
   do_exists tc fa s d = (s', r) ->
   steps s s' [EvExists d] /\
   (r = None -> fa <> None) /\
-  (r = Some true -> stored (t_bydigest tc) (s_store s') d = true).
+  (r = Some true -> stored (t_key tc) (s_store s') d = true).
 Proof.
   unfold do_exists. destruct (faulty fa s) eqn:F; intros [= <- <-]; (split; [|split]); try discriminate.
   - split; [reflexivity|]. split; [simpl; lia|]. exists nil. split; [now rewrite app_nil_r | constructor].
@@ -205,13 +207,13 @@ Lemma do_push_spec tc fa s r d bytes s' ok :
   do_push tc fa s r d bytes = (s', ok) ->
   steps s s' [EvPush r d bytes] /\
   (ok = false -> fa <> None) /\
-  (ok = true -> stored (t_bydigest tc) (s_store s') d = true).
+  (ok = true -> stored (t_key tc) (s_store s') d = true).
 Proof.
   unfold do_push. destruct (faulty fa s) eqn:F.
   - intros [= <- <-]. split; [|split]; try discriminate.
     + split; [reflexivity|]. split; [simpl; lia|]. exists nil. split; [now rewrite app_nil_r | constructor].
     + intros _ E. subst fa. discriminate.
-  - destruct (stored (t_bydigest tc) (s_store s) d) eqn:St; intros [= <- <-]; (split; [|split]);
+  - destruct (stored (t_key tc) (s_store s) d) eqn:St; intros [= <- <-]; (split; [|split]);
       try discriminate; auto.
     + split; [reflexivity|]. split; [simpl; lia|]. exists nil. split; [now rewrite app_nil_r | constructor].
     + split; [reflexivity|]. split; [simpl; lia|]. exists [entry_of d bytes]. split; auto.
@@ -242,7 +244,7 @@ Section PackProofs.
     push_if_not_exist tc fa s d empty_json = (s', ok) ->
     exists evs, steps s s' evs /\ Forall blob_ev evs /\
                 (ok = false -> fa <> None) /\
-                (ok = true -> stored (t_bydigest tc) (s_store s') d = true).
+                (ok = true -> stored (t_key tc) (s_store s') d = true).
   Proof.
     intros Bd. unfold push_if_not_exist. destruct (t_exists tc).
     - destruct (do_exists tc fa s d) as [s1 r] eqn:E. apply do_exists_spec in E as (S1 & F1 & T1).
@@ -368,15 +370,15 @@ Section PackProofs.
       ensure_created (o_ann o) (created_key f) now = Some ann ->
       m = requested_manifest f at_ o ann ->
       steps s s' (evs ++ [EvPush RManifest (result_desc f m) (marshal m)]) -> Forall blob_ev evs ->
-      stored (t_bydigest tc) (s_store s') (result_desc f m) = true ->
-      Forall (fun x => stored (t_bydigest tc) (s_store s') x = true) (invented f at_ o) ->
+      stored (t_key tc) (s_store s') (result_desc f m) = true ->
+      Forall (fun x => stored (t_key tc) (s_store s') x = true) (invented f at_ o) ->
       outcome f tc fa s at_ o now s' (Ok (result_desc f m) m).
 
   Lemma push_manifest_spec tc fa s m at_ s' r :
     push_manifest marshal H tc fa s m at_ = (s', r) ->
     forall d, d = mkDesc (kind_mt (m_kind m)) (H (marshal m)) (Z.of_nat (length (marshal m))) (m_ann m) at_ [] ->
     steps s s' [EvPush RManifest d (marshal m)] /\
-    (r = Ok d m /\ stored (t_bydigest tc) (s_store s') d = true \/ r = Err EInjected /\ fa <> None).
+    (r = Ok d m /\ stored (t_key tc) (s_store s') d = true \/ r = Err EInjected /\ fa <> None).
   Proof.
     unfold push_manifest. intros P d ->.
     destruct (do_push tc fa s RManifest _ (marshal m)) as [s1 ok] eqn:E.
@@ -395,7 +397,7 @@ Section PackProofs.
     push_custom_empty_config H tc fa s mt ann = (s', r) ->
     forall d, d = with_ann (desc_from_bytes H mt empty_json) ann ->
     exists evs, steps s s' evs /\ Forall blob_ev evs /\
-      (r = Some d /\ stored (t_bydigest tc) (s_store s') d = true \/ r = None /\ fa <> None).
+      (r = Some d /\ stored (t_key tc) (s_store s') d = true \/ r = None /\ fa <> None).
   Proof.
     unfold push_custom_empty_config. intros P d ->.
     destruct (push_if_not_exist tc fa s _ empty_json) as [s1 ok] eqn:E.
@@ -431,7 +433,7 @@ Section PackProofs.
     must_reject f at_ o = false ->
     ensure_created (o_ann o) (created_key f) now = Some ann ->
     steps s s1 evs -> Forall blob_ev evs ->
-    Forall (fun x => stored (t_bydigest tc) (s_store s1) x = true) (invented f at_ o) ->
+    Forall (fun x => stored (t_key tc) (s_store s1) x = true) (invented f at_ o) ->
     m = requested_manifest f at_ o ann ->
     at' = d_at (result_desc f m) ->
     push_manifest marshal H tc fa s1 m at' = (s', r) ->
@@ -450,7 +452,7 @@ Section PackProofs.
   Lemma tail_outcome f tc fa s at_ o now s1 evs (m_of : list kv -> manifest) at' s' r :
     must_reject f at_ o = false ->
     steps s s1 evs -> Forall blob_ev evs ->
-    Forall (fun x => stored (t_bydigest tc) (s_store s1) x = true) (invented f at_ o) ->
+    Forall (fun x => stored (t_key tc) (s_store s1) x = true) (invented f at_ o) ->
     (forall ann, m_of ann = requested_manifest f at_ o ann) ->
     (forall ann, at' = d_at (result_desc f (requested_manifest f at_ o ann))) ->
     match ensure_created (o_ann o) (created_key f) now with
@@ -682,8 +684,8 @@ Section PackProofs.
       m = requested_manifest f at_ o ann /\
       d = result_desc f m /\
       steps s s' (evs ++ [EvPush RManifest d (marshal m)]) /\ Forall blob_ev evs /\
-      stored (t_bydigest tc) (s_store s') d = true /\
-      Forall (fun x => stored (t_bydigest tc) (s_store s') x = true) (invented f at_ o).
+      stored (t_key tc) (s_store s') d = true /\
+      Forall (fun x => stored (t_key tc) (s_store s') x = true) (invented f at_ o).
   Proof.
     intro P. apply pack_outcome in P. inversion P; subst. exists ann, evs. auto 10.
   Qed.
@@ -767,7 +769,7 @@ Section PackProofs.
     wf_store (s_store s) ->
     pack marshal H f tc fa s at_ o now = (s', Ok d m) ->
     d_dg d = H (marshal m) /\ d_sz d = Z.of_nat (length (marshal m)) /\ d_mt d = kind_mt (m_kind m) /\
-    exists e, In e (s_store s') /\ same_key (t_bydigest tc) d e = true /\
+    exists e, In e (s_store s') /\ same_key (t_key tc) d e = true /\
               H (e_bytes e) = d_dg d /\
               ((forall x y, H x = H y -> x = y) -> e_bytes e = marshal m /\ e_sz e = d_sz d).
   Proof.
@@ -788,7 +790,7 @@ Section PackProofs.
     pack marshal H f tc fa s at_ o now = (s', Ok d m) ->
     forall x, In x (invented f at_ o) ->
       d_dg x = H empty_json /\ d_sz x = 2%Z /\
-      exists e, In e (s_store s') /\ same_key (t_bydigest tc) x e = true /\ H (e_bytes e) = H empty_json /\
+      exists e, In e (s_store s') /\ same_key (t_key tc) x e = true /\ H (e_bytes e) = H empty_json /\
                 ((forall a c, H a = H c -> a = c) -> e_bytes e = empty_json).
   Proof.
     intros W P x Ix. pose proof (pack_preserves_wf _ _ _ _ _ _ _ _ _ P W) as W'.
@@ -820,7 +822,7 @@ Section PackProofs.
   Theorem ok_closed f tc fa s at_ o now s' d m :
     pack marshal H f tc fa s at_ o now = (s', Ok d m) ->
     forall x, In x (successors m) ->
-      In x (supplied o) \/ stored (t_bydigest tc) (s_store s') x = true.
+      In x (supplied o) \/ stored (t_key tc) (s_store s') x = true.
   Proof.
     intros P x Ix. pose proof (ok_not_rejected _ _ _ _ _ _ _ _ _ _ P) as MR.
     apply ok_consistent in P as (ann & evs & EC & -> & -> & S & B & St & I).
